@@ -301,6 +301,7 @@ pub struct Verdict {
     pub outcome: &'static str, // "err", "ok", "env"
     pub fails: Vec<(String, String)>,
     pub leaked_values_on_err: u64,
+    pub ok_leak: u64,
     pub continuations: u64,
 }
 
@@ -361,7 +362,7 @@ fn model_of(w: &mut W) -> Model {
 }
 
 fn judge(input: &Input, cont_depth: usize) -> Verdict {
-    let mut v = Verdict { outcome: "err", fails: vec![], leaked_values_on_err: 0, continuations: 0 };
+    let mut v = Verdict { outcome: "err", fails: vec![], leaked_values_on_err: 0, ok_leak: 0, continuations: 0 };
     let conts = cont_alphabet();
     // the list of continuations: [] plus every sequence up to cont_depth
     let mut seqs: Vec<Vec<usize>> = vec![vec![]];
@@ -384,6 +385,7 @@ fn judge(input: &Input, cont_depth: usize) -> Verdict {
         let mut fails: Vec<(String, String)> = Vec::new();
         let mut outcome = "err";
         let mut stop = false;
+        let mut ok_leak = 0u64;
         let r = catch_unwind(AssertUnwindSafe(|| {
             let res = catch_unwind(AssertUnwindSafe(|| deserialize(input)));
             match res {
@@ -417,6 +419,9 @@ fn judge(input: &Input, cont_depth: usize) -> Verdict {
                         let live: BTreeSet<u64> = comp::with_ledger(|l| l.live_serials().into_iter().collect()).unwrap_or_default();
                         if !owned.is_subset(&live) {
                             chk.fail(Prop::C04, "returned-world-holds-dropped-values", format!("{:?}", owned.difference(&live).collect::<Vec<_>>()));
+                        }
+                        if !live.is_subset(&owned) {
+                            ok_leak = live.difference(&owned).count() as u64;
                         }
                         ex.check_ledger_and_arena(&mut chk, "deserialize");
                     } else {
@@ -466,6 +471,7 @@ fn judge(input: &Input, cont_depth: usize) -> Verdict {
             v.fails.push((format!("allocator-misuse outcome={}", outcome), rep.describe()));
         }
         v.outcome = outcome;
+        v.ok_leak += ok_leak;
         if si > 0 {
             v.continuations += 1;
         }
@@ -567,6 +573,12 @@ pub fn worker_c11(tier: &str, shard: usize, nshards: usize, resume: Option<usize
                 _ => { n_env += 1; slot[2] += 1 }
             }
             leaks += (verdict.leaked_values_on_err > 0) as u64;
+            if verdict.ok_leak > 0 {
+                println!("FAIL C04:deserialize-ok-path-leak :: {} value(s) constructed during a successful deserialization are owned by no world :: {{\"engine\":\"fault-c11\",\"tier\":\"{}\",\"case\":{},\"base\":{:?},\"enc\":\"{:?}\",\"edits\":\"{:?}\",\"json_idx\":{}}}", verdict.ok_leak, tier, i, b.hist, c.enc, c.edits, c.json_idx);
+            }
+            // values constructed by a FAILED deserialization and never dropped are counted (`err_with_leak`) but are not
+            // a verdict: the unchanged tree leaks partially deserialized rows and columns on several error paths, and
+            // neither C04 nor C11 speaks about leaks on the error path (DESIGN.md, C11 notes)
             conts += verdict.continuations;
             for (k, d) in &verdict.fails {
                 println!("FAIL {} :: {} :: {{\"engine\":\"fault-c11\",\"tier\":\"{}\",\"case\":{},\"base\":{:?},\"enc\":\"{:?}\",\"edits\":\"{:?}\",\"json_idx\":{}}}", k.replace(' ', "_"), d.replace('\n', " "), tier, i, b.hist, c.enc, c.edits, c.json_idx);
@@ -610,7 +622,7 @@ fn enumerate(tier: &str) -> (Vec<BaseSer>, Vec<Case>) {
     (bases, cases)
 }
 
-pub fn main_c11(tier: &str, threads: usize, evidence: Option<&str>, replay_dir: &str, seed: i64) -> i32 {
+pub fn main_c11(tier: &str, threads: usize, evidence: Option<&str>, replay_dir: &str, seed: i64, prop: &str) -> i32 {
     use std::io::{BufRead, BufReader};
     use std::process::{Command, Stdio};
     let t0 = Instant::now();
@@ -659,7 +671,13 @@ pub fn main_c11(tier: &str, threads: usize, evidence: Option<&str>, replay_dir: 
                             }
                         } else if let Some(rest) = line.strip_prefix("FAIL ") {
                             let parts: Vec<&str> = rest.splitn(3, " :: ").collect();
-                            if parts.len() == 3 {
+                            // keys of the form "C04:<key>" belong to C04, everything else to C11
+                            let (fprop, key) = match parts[0].split_once(':') {
+                                Some((p, k)) if p.len() == 3 && p.starts_with('C') => (p, k),
+                                _ => ("C11", parts[0]),
+                            };
+                            if parts.len() == 3 && fprop == prop {
+                                let parts = [key, parts[1], parts[2]];
                                 let mut f = found.lock().unwrap();
                                 if let Some(x) = f.iter_mut().find(|x| x.0 == parts[0]) {
                                     x.3 += 1;
@@ -711,19 +729,19 @@ pub fn main_c11(tier: &str, threads: usize, evidence: Option<&str>, replay_dir: 
     let found = found.into_inner().unwrap();
     let tt = totals.into_inner().unwrap();
     let machinery = machinery.into_inner().unwrap();
-    let dir = format!("{}/C11", replay_dir);
+    let dir = format!("{}/{}", replay_dir, prop);
     let _ = std::fs::create_dir_all(&dir);
     let mut found_json = Vec::new();
     for (key, detail, case, count) in &found {
         let fname: String = key.chars().map(|c| if c.is_ascii_alphanumeric() || c == '-' || c == '=' { c } else { '_' }).collect();
         let path = format!("{}/{}.json", dir, &fname[..fname.len().min(120)]);
         let mut j: serde_json::Value = serde_json::from_str(case).unwrap_or(serde_json::json!({"raw": case}));
-        j["property"] = "C11".into();
+        j["property"] = prop.into();
         j["key"] = key.clone().into();
         j["detail"] = detail.clone().into();
         j["occurrences"] = (*count).into();
         std::fs::write(&path, serde_json::to_string_pretty(&j).unwrap()).unwrap();
-        println!("FOUND property=C11 key={} replay={} count={} :: {}", key, path, count, &detail[..detail.len().min(300)]);
+        println!("FOUND property={} key={} replay={} count={} :: {}", prop, key, path, count, &detail[..detail.len().min(300)]);
         found_json.push(serde_json::json!({"key": key, "replay": path, "count": count}));
     }
     let total = tt.0 + tt.1 + tt.2 + tt.6;
@@ -732,7 +750,7 @@ pub fn main_c11(tier: &str, threads: usize, evidence: Option<&str>, replay_dir: 
         .map(|&i| serde_json::json!({"base_history": bases[cases[i].base].hist, "encoding": format!("{:?}", cases[i].enc), "edits": format!("{:?}", cases[i].edits), "json_input_index": cases[i].json_idx}))
         .collect();
     let ev = serde_json::json!({
-        "property_id": "C11", "tier": tier, "seed": seed, "level": "fault_enumeration",
+        "property_id": prop, "tier": tier, "seed": seed, "level": "fault_enumeration",
         "coverage": {
             "evaluations": total, "distinct_nontrivial": tt.0 + tt.1,
             "rule": "inputs = every single edit (delete / duplicate / swap / alter, at every position; alterations per token kind: integers to {0,1,v-1,v+1,v+len,MAX,v^2}, identifier bytes every single-bit flip, declared lengths +-1/0/None, field and struct names renamed, type changes) of every base serialization in compact and human-readable token encodings, plus for JSON text: truncation at every byte offset, every value-tree edit and every duplicated key; thorough adds all swaps and all pairs of non-swap edits on the 6 smallest bases. non-trivial = reached brood's deserializer and was judged (Err or Ok), i.e. not rejected by the format layer with a panic of its own",
